@@ -128,7 +128,8 @@ class QBitsTensor(QTensor):
         """Allows to convert an existing QBitsTensor to an optimized subclass"""
         if type(self) != QBitsTensor:
             return self
-        data = self._data.unpack()
+        # The packed data is passed as is: create() unpacks it only if an optimized subclass is selected
+        data = self._data
         # Call dedicated helper to select the best subclass for this device
         return QBitsTensor.create(
             self.qtype,
